@@ -290,6 +290,10 @@ def gen_tree(rng, depth):
         if op == "**":
             return E.bin_("**", gen_tree(rng, depth - 1), rng.choice([E.num(2), E.num(3), E.neg(E.num(1)), E.neg(E.num(2)), E.sym("k")]))
         l, r = gen_tree(rng, depth - 1), gen_tree(rng, depth - 1)
+        if op == "%" and E.fv(l) & E.fv(r):
+            # known finding (mod-common-symbol-negative-factor): sympy rewrites Mod(a*x, b*x) assuming b > 0; a modulo whose two
+            # sides share a symbol is kept out of the generated family; the pinned witness is replayed by known_witnesses2()
+            r = E.subst(r, {s_: E.sym("w") for s_ in E.fv(l) & E.fv(r)})
         if op == "//" and not E.fv(l) and not E.fv(r):
             # known finding (floordiv-literal-negative-quotient): literal // literal is kept out of the generated family;
             # the pinned witnesses are replayed by known_witnesses()
@@ -395,9 +399,20 @@ def known_witnesses(ctx):
                           witness_id="floordiv-literal-negative-quotient")
 
 
+def known_witnesses2(ctx):
+    s = "lambda % (-(2/5) * lambda)"
+    got = B.as_expression(s)
+    ctx.stats["evaluations"] += 1
+    val = E.sympy_ev(got, {"lambda": Fraction(1, 2)})
+    if val != Fraction(-1, 10):
+        ctx.violation("failing-input", f"{s} at lambda=1/2 is {val}, the standard reading is -1/10", {"expression": s, "point": {"lambda": "1/2"}}, str(got), "-1/10",
+                      witness_id="mod-common-symbol-negative-factor")
+
+
 def run(ctx, widen=False):
     rng = ctx.rng
     known_witnesses(ctx)
+    known_witnesses2(ctx)
     ctx.rule = ("exhaustive: every pair and triple of the 8 binary operators with unary minus in every operand position (flat strings read by the harness' own "
                 "precedence reader) + parenthesised pairs; every identifier shape x reserved word x position; every exact built-in in 4 casings; all other built-ins "
                 "for case-insensitivity; unknown functions; random strings to nesting depth 5|7 with random redundant parentheses and both power spellings; values "
